@@ -134,7 +134,7 @@ def specJudge (XS : XmlSpec.SpecExt) (t : Ty) (doc : Bytes) (status payload : St
       | .error m => .error ("misfit:" ++ isErrMisfit m ++ (if misfitIsXsi m then ":xsi" else ""))
   let value (d : Bytes) : Except String Bytes := valueOfNode (XmlSpec.parse d)
   -- classification only: the value of the document read WITHOUT line-end normalisation (what a reader that skips
-  -- XML 1.0 §2.11 sees). The class it names, `xml-eol-not-normalised`, was repaired by eab498c and is no longer
+  -- XML 1.0 §2.11 sees). The class it names, `xml-eol-not-normalised`, was repaired by d365e05 and is no longer
   -- listed as open: any case of it is a violation again.
   let valueNoEol (d : Bytes) : Except String Bytes := valueOfNode (XmlSpec.parseWith false d)
   let toks := match XmlSpec.lex doc with | .ok t => t | .error _ => []
